@@ -11,15 +11,15 @@ import (
 
 // Site is one potential bounds panic with a constant requirement.
 type Site struct {
-	Fn    *ssa.Function
-	Ins   ssa.Instruction
-	Slice ssa.Value
-	Need  int // required minimum length of Slice
-	Have  int // proven minimum length
-	What  string
-	Class string // SAFE | DEF | UNK-*
-	Why   string
-	Root  ssa.Value
+	Fn     *ssa.Function
+	Ins    ssa.Instruction
+	Slice  ssa.Value
+	Need   int // required minimum length of Slice
+	Have   int // proven minimum length
+	What   string
+	Class  string // SAFE | DEF | UNK-*
+	Why    string
+	Root   ssa.Value
 	Guards []string
 }
 
